@@ -224,10 +224,35 @@ func genRelayAcctSrc(repo string) (string, error) {
 	}
 	finBody := exprStr(fset, fin.Body)
 	finOK := finBody == "{ hostInfo := p.readCallbacks.UpstreamHost() if host, ok := hostInfo.(types.Host); ok { host.ClusterInfo().ResourceManager().Connections().Decrease() } }"
+	// resource_manager.go: do Increase / Decrease count unconditionally?
+	fsetR, fR, err := ParseGoFile(repo, "pkg/upstream/cluster/resource_manager.go")
+	if err != nil {
+		return "", err
+	}
+	countsAlways := true
+	for _, fn := range []string{"Increase", "Decrease"} {
+		fd := FindFunc(fR, "resource", fn)
+		if fd == nil {
+			return "", fmt.Errorf("resource.%s not found", fn)
+		}
+		body := exprStr(fsetR, fd.Body)
+		sign := map[string]string{"Increase": "1", "Decrease": "-1"}[fn]
+		switch body {
+		case "{ atomic.AddInt64(&r.current, " + sign + ") }":
+		case "{ if r.max != 0 { atomic.AddInt64(&r.current, " + sign + ") } }":
+			countsAlways = false
+		default:
+			return "", fmt.Errorf("resource.%s has an unexpected body: %s", fn, body)
+		}
+	}
+	if cc := FindFunc(fR, "resource", "CanCreate"); cc == nil || !strings.Contains(exprStr(fsetR, cc.Body), "if r.max == 0 { return true }") || !strings.Contains(exprStr(fsetR, cc.Body), "if curValue < 0 { return true }") {
+		return "", fmt.Errorf("resource.CanCreate has an unexpected shape")
+	}
 	var out strings.Builder
 	out.WriteString("From MV Require Import Model.RelayAcct.\n\n")
 	fmt.Fprintf(&out, "(* initializeUpstreamConnection: Increase+SetUpstreamHost before Connect = %v; the two UpstreamConnectionActive++ before Connect = %v;\n   Connect error branch: Decrease = %v, the two UpstreamConnectionActive-- = %v, SetUpstreamHost(nil) = %v;\n   onUpstreamEvent: the ConnectTimeout case finalizes = %v *)\n", before, gaugesBefore, errDec, errGauges, errUnset, finalizes["ConnectTimeout"])
-	fmt.Fprintf(&out, "Definition src_sw : sw := mkSw %s %s %s %s %s %s.\n", CoqBool(before), CoqBool(gaugesBefore), CoqBool(errDec), CoqBool(errGauges), CoqBool(errUnset), CoqBool(finalizes["ConnectTimeout"]))
+	fmt.Fprintf(&out, "(* resource_manager.go: Increase/Decrease count unconditionally (also while max == 0) = %v *)\n", countsAlways)
+	fmt.Fprintf(&out, "Definition src_sw : sw := mkSw %s %s %s %s %s %s %s.\n", CoqBool(before), CoqBool(gaugesBefore), CoqBool(errDec), CoqBool(errGauges), CoqBool(errUnset), CoqBool(finalizes["ConnectTimeout"]), CoqBool(countsAlways))
 	fmt.Fprintf(&out, "(* exactly one Increase call in the file (%d); all five close events finalize (%v); finalize is one Decrease guarded by the\n   upstream host being set (%v) *)\n", nInc, allClose, finOK)
 	fmt.Fprintf(&out, "Definition acct_shape_ok : bool := %s.\n", CoqBool(nInc == 1 && allClose && finOK))
 	out.WriteString("Definition RelayAcctSrc_translator_ok := true.\n")
